@@ -70,6 +70,7 @@ template <class P> inline void readPay(const P* p, uint8_t& has, uint8_t& seed, 
 
 struct EvA { int v; };
 struct EvB { int v; int w; };
+using EvP = const EvA*;   // a pointer-typed event: "no message" is the null value
 struct Ctx { int tag = 0; EvA mailA{0}; EvB mailB{0, 0}; };   // the mail slots let react()/query() be handed an event stored in the context
 
 // ---- world ------------------------------------------------------------------------------------
@@ -297,7 +298,7 @@ struct Inj<CFG, I, J, true> : Zoo<CFG>::FSM::State {
 	bool thisOk() const;
 	VF_LOCAL
 	VF_CB_ENTRY_GUARD(I, J) VF_CB_ENTER(I, J) VF_CB_REENTER(I, J) VF_CB_PRE_UPDATE(I, J) VF_CB_UPDATE(I, J) VF_CB_POST_UPDATE(I, J) VF_CB_EXIT_GUARD(I, J) VF_CB_EXIT(I, J)
-	VF_CB_EVENTS_NT(I, J, EvA) VF_CB_EVENTS_NT(I, J, EvB)
+	VF_CB_EVENTS_NT(I, J, EvA) VF_CB_EVENTS_NT(I, J, EvB) VF_CB_EVENTS_NT(I, J, EvP)
 	virtual ~Inj() = default;
 };
 #undef VF_VIRT
@@ -605,7 +606,7 @@ struct Runner {
 		Instance& m = *ptr(i);
 		if constexpr (!Z::IS_MANUAL) { if (m.activeStateId() == ffsm2::INVALID_STATE_ID) return; }
 		Guarded g; g.c0 = 0xA5A5A5A5A5A5A5A5ull; g.c1 = 0x5A5A5A5A5A5A5A5Aull;
-		memset(static_cast<void*>(&g.buf), 0xEE, sizeof g.buf);
+		for (unsigned k = 0; k < sizeof(g.buf.data()); ++k) g.buf.data()[k] = 0xEE;
 		m.save(g.buf);
 		e.hasSerial = 1;
 		e.serial = 0;
@@ -732,6 +733,19 @@ struct Runner {
 		if (kind == ACT_REQUEST_REL) { kind = ACT_REQUEST; reqDest = static_cast<uint8_t>((state == NOID ? 0 : state) + 1 + act.x % 3); }
 		const bool fwd = kind == ACT_REQUEST_FWD;   // payload handed over by reference to library-owned storage
 		if (fwd) kind = ACT_REQUEST;
+		if (kind == ACT_M_REPORT) {
+#ifdef VF_PLANS
+			if constexpr (fl == CTL_CONST) { ++W.tr->normalised; return; }
+			else {
+				Ev& a = pushEv(EV_ACT);
+				a.state = state; a.method = (act.y & 1) ? ACT_FAIL_ID : ACT_SUCCEED_ID; a.d = method; a.a = normState(act.x);
+				if (act.y & 1) ptr(W.cur)->fail(a.a); else ptr(W.cur)->succeed(a.a);
+				return;
+			}
+#else
+			++W.tr->normalised; return;
+#endif
+		}
 		if (kind == ACT_M_REQUEST) {
 			// a request through the machine object itself (users keep a pointer to it in the context): possible from every non-const callback,
 			// also from enter / exit / reenter whose control offers no changeTo()
@@ -780,8 +794,10 @@ struct Runner {
 #endif
 							break;
 						}
-						if (src) { uint8_t has, seed, exact, aligned; readPay(src, has, seed, exact, aligned); a.c = seed; control.changeWith(a.a, *src); }
-						else control.changeTo(a.a);
+						const bool viaMachine = ((act.y / 4) & 1) != 0;   // the machine's own changeWith(), handed a reference into the machine's own request
+						if (viaMachine) a.state = NOID;
+						if (src) { uint8_t has, seed, exact, aligned; readPay(src, has, seed, exact, aligned); a.c = seed; if (viaMachine) ptr(W.cur)->changeWith(a.a, *src); else control.changeWith(a.a, *src); }
+						else if (viaMachine) ptr(W.cur)->changeTo(a.a); else control.changeTo(a.a);
 					} else control.changeTo(a.a);
 					break;
 				}
@@ -996,6 +1012,18 @@ struct Runner {
 			uint8_t place = static_cast<uint8_t>((op.a >> 1) & 3);
 			if (place == 1 && code == OP_REACT) place = 0;   // 1: query() with a const-qualified event object
 			if (place == 2 && Z::CTX == 0) place = 0;
+			if ((op.a >> 3) % 3 == 2) {
+				// third event type: a pointer; every other value of b is the null pointer ("no message") -- an event value like any other
+				begin(inst, code, 2, op.b, 0);
+				const EvA target{op.b};
+				EvP pv = (op.b & 1) ? nullptr : &target;
+				W.evtAddr = &pv;
+				if (code == OP_REACT) ok = guarded(inst, [&] { const EvP& ev = pv; m.react(ev); });
+				else ok = guarded(inst, [&] { const Instance& cm = m; cm.query(pv); });
+				W.evtAddr = nullptr;
+				op.a = 2;
+				break;
+			}
 			op.a &= 1;
 			begin(inst, code, op.a, op.b, place);
 			EvA la{op.b}; EvB lb{op.b, 7};
@@ -1126,7 +1154,7 @@ struct Runner {
 			begin(inst, code, op.a, 0, 0);
 			Guarded& g = bufs[op.a];
 			g.c0 = 0x1122334455667788ull; g.c1 = 0x8877665544332211ull;
-			memset(static_cast<void*>(&g.buf), 0xEE, sizeof g.buf);
+			for (unsigned k = 0; k < sizeof(g.buf.data()); ++k) g.buf.data()[k] = 0xEE;   // stale contents, put there the way a user would (a received packet)
 			ok = guarded(inst, [&] { const Instance& cm = m; cm.save(g.buf); });
 			saved[op.a] = true; savedAct[op.a] = m.activeStateId();
 			{
